@@ -29,6 +29,7 @@ import (
 	"net/http/httptest"
 	"net/url"
 	"os"
+	"runtime"
 	"strconv"
 	"strings"
 	"sync"
@@ -146,6 +147,207 @@ func (env *verifC32Env) dial(kind string) (*verifC32Conn, string) {
 		return nil, "no client connected"
 	}
 	return conn, ""
+}
+
+// verifC32Writer: an http.ResponseWriter + Flusher collecting the body; with hold set, the first Write
+// blocks (after announcing itself) until released — a slow client whose write is still in flight.
+type verifC32Writer struct {
+	mu      sync.Mutex
+	header  http.Header
+	status  int
+	body    bytes.Buffer
+	hold    bool
+	entered chan struct{}
+	release chan struct{}
+}
+
+func (w *verifC32Writer) Header() http.Header { return w.header }
+func (w *verifC32Writer) WriteHeader(s int) {
+	w.mu.Lock()
+	if w.status == 0 {
+		w.status = s
+	}
+	w.mu.Unlock()
+}
+func (w *verifC32Writer) Flush() {}
+func (w *verifC32Writer) Write(p []byte) (int, error) {
+	w.mu.Lock()
+	hold := w.hold
+	w.hold = false
+	if w.status == 0 {
+		w.status = 200
+	}
+	w.mu.Unlock()
+	if hold {
+		w.entered <- struct{}{}
+		select {
+		case <-w.release:
+		case <-time.After(25 * time.Second):
+		}
+	}
+	w.mu.Lock()
+	w.body.Write(p)
+	w.mu.Unlock()
+	return len(p), nil
+}
+
+// runGated: `gated r=<hex>,<hex>,…` — one Protobuf HTTP-stream connection per payload, each with its
+// own RPC reply payload.  Connection 0 has a slow client: its first body write is held inside Write
+// while the other connections connect, get their replies written and are closed; then it is released.
+// The handlers are called directly with a gated ResponseWriter; GOMAXPROCS is 1 for the duration so
+// that goroutine hand-overs (and sync.Pool reuse between handler goroutines) are reproducible.
+// Output as for `multi`.
+func (env *verifC32Env) runGated(ws []string) string {
+	kv := map[string]string{}
+	for _, w := range ws {
+		if i := strings.IndexByte(w, '='); i > 0 {
+			kv[w[:i]] = w[i+1:]
+		}
+	}
+	var payloads [][]byte
+	for _, x := range strings.Split(kv["r"], ",") {
+		d, ok := verifC32Unhex(x)
+		if !ok {
+			return "bad-op"
+		}
+		payloads = append(payloads, d)
+	}
+	if len(payloads) < 2 {
+		return "bad-op"
+	}
+	prev := runtime.GOMAXPROCS(1)
+	defer runtime.GOMAXPROCS(prev)
+	node := env.node
+	if !verifC32Wait(func() bool { return node.Hub().NumClients() == 0 }, 20*time.Second) {
+		return "HARNESS-ERROR previous client still registered"
+	}
+	m := &verifC32Multi{capt: map[*Client][][]byte{}}
+	env.mu.Lock()
+	env.captured = nil
+	env.connectData, env.subData, env.rpcs = nil, nil, payloads
+	env.multi = m
+	env.mu.Unlock()
+	defer func() {
+		env.mu.Lock()
+		env.multi = nil
+		env.mu.Unlock()
+	}()
+	for len(env.clientCh) > 0 {
+		<-env.clientCh
+	}
+	h := NewHTTPStreamHandler(node, HTTPStreamConfig{})
+	type gconn struct {
+		w      *verifC32Writer
+		client *Client
+		done   chan struct{}
+		cancel context.CancelFunc
+	}
+	serve := func(i int, hold bool) (*gconn, string) {
+		var reqBody bytes.Buffer
+		for _, c := range []*protocol.Command{
+			{Id: 1, Connect: &protocol.ConnectRequest{}},
+			{Id: 2, Rpc: &protocol.RPCRequest{Method: strconv.Itoa(i)}},
+		} {
+			b, err := c.MarshalVT()
+			if err != nil {
+				return nil, "marshal: " + err.Error()
+			}
+			var lb [binary.MaxVarintLen64]byte
+			n := binary.PutUvarint(lb[:], uint64(len(b)))
+			reqBody.Write(lb[:n])
+			reqBody.Write(b)
+		}
+		ctx, cancel := context.WithCancel(context.Background())
+		req := httptest.NewRequest(http.MethodPost, "/connection/http_stream", bytes.NewReader(reqBody.Bytes())).WithContext(ctx)
+		req.Header.Set("Content-Type", "application/octet-stream")
+		g := &gconn{w: &verifC32Writer{header: http.Header{}, hold: hold, entered: make(chan struct{}, 1), release: make(chan struct{})},
+			done: make(chan struct{}), cancel: cancel}
+		go func() {
+			defer close(g.done)
+			h.ServeHTTP(g.w, req)
+		}()
+		select {
+		case g.client = <-env.clientCh:
+		case <-time.After(20 * time.Second):
+			cancel()
+			return nil, "no client connected"
+		}
+		return g, ""
+	}
+	count := func(g *gconn) int { env.mu.Lock(); defer env.mu.Unlock(); return len(m.capt[g.client]) }
+	var conns []*gconn
+	cleanup := func() {
+		for _, g := range conns {
+			select {
+			case <-g.w.release:
+			default:
+				close(g.w.release)
+			}
+			_ = g.client.close(DisconnectForceNoReconnect)
+			g.cancel()
+		}
+	}
+	a, e := serve(0, true)
+	if a == nil {
+		return "HARNESS-ERROR " + e
+	}
+	conns = append(conns, a)
+	select {
+	case <-a.w.entered:
+	case <-time.After(20 * time.Second):
+		cleanup()
+		return "HARNESS-ERROR held connection did not start writing"
+	}
+	for i := 1; i < len(payloads); i++ {
+		g, e := serve(i, false)
+		if g == nil {
+			cleanup()
+			return "HARNESS-ERROR " + e
+		}
+		conns = append(conns, g)
+		if !verifC32Wait(func() bool { return count(g) >= 2 }, 20*time.Second) {
+			cleanup()
+			return "HARNESS-ERROR replies not produced"
+		}
+		_ = g.client.close(DisconnectForceNoReconnect) // flushes the writer, closes the transport
+		select {
+		case <-g.done:
+		case <-time.After(20 * time.Second):
+			cleanup()
+			return "HARNESS-ERROR handler did not finish"
+		}
+	}
+	close(a.w.release)
+	if !verifC32Wait(func() bool { return count(a) >= 2 }, 20*time.Second) {
+		cleanup()
+		return "HARNESS-ERROR held connection replies not produced"
+	}
+	_ = a.client.close(DisconnectForceNoReconnect)
+	select {
+	case <-a.done:
+	case <-time.After(20 * time.Second):
+		cleanup()
+		return "HARNESS-ERROR held handler did not finish"
+	}
+	out := []string{"multi"}
+	for _, g := range conns {
+		g.cancel()
+		env.mu.Lock()
+		msgs := make([]string, 0)
+		for _, mm := range m.capt[g.client] {
+			msgs = append(msgs, verifC32Hex(mm))
+		}
+		env.mu.Unlock()
+		ms := "none"
+		if len(msgs) > 0 {
+			ms = strings.Join(msgs, ",")
+		}
+		g.w.mu.Lock()
+		body, status := verifC32Hex(g.w.body.Bytes()), g.w.status
+		g.w.mu.Unlock()
+		out = append(out, fmt.Sprintf("status=%d t=hs-proto exp=3 msgs=%s body=%s", status, ms, body))
+	}
+	return strings.Join(out, " ;; ")
 }
 
 // runMulti: `multi c=<kind>,<kind>,… dc=<code> dr=<hex> s=pub:<hex>,…` — JSON connections (sse / hs-json)
@@ -586,6 +788,10 @@ func TestVerifC32(t *testing.T) {
 		line := sc.Text()
 		if line == "" || strings.HasPrefix(line, "#") {
 			fmt.Fprintln(w, "#")
+			continue
+		}
+		if f := strings.Fields(line); len(f) > 1 && f[0] == "gated" {
+			fmt.Fprintln(w, env.runGated(f[1:]))
 			continue
 		}
 		if f := strings.Fields(line); len(f) > 1 && f[0] == "multi" {
